@@ -623,9 +623,9 @@ fn main() {
             let r = run_case(&c, &mut ctx);
             record(&mut rep, &c, r, i % 997 == 5);
         }
-        if rep.thorough() {
-            consumer::run(&mut rep, &work);
-        }
+        // real `#[derive(GraphQLQuery)]` uses compiled by rustc (both tiers: the option plumbing of the proc-macro
+        // crate's lib.rs is only reached this way)
+        consumer::run(&mut rep, &work);
     }
     rep.extra.insert("model_requests".into(), json!(ctx.model.requests));
     drop(ctx);
